@@ -23,6 +23,51 @@ func init() {
 func runC18(c *eng.Ctx) {
 	P := c.P
 	_ = P
+	// (0) SIB-store-choice: with path-specific stores the children of directory D live in the store selected for "D/" (every
+	// child path "D/x" has that prefix), while D's own entry lives in the store selected for "D". Every wrapper method
+	// that operates on the children of a directory selects by "D/"; every method that operates on one entry selects by
+	// the entry's path.
+	{
+		childOps := eng.CallTo("filer.FilerStore).DeleteFolderChildren", "filer.FilerStore).ListDirectoryEntries", "filer.FilerStore).ListDirectoryPrefixedEntries")
+		entryOps := eng.CallTo("filer.FilerStore).InsertEntry", "filer.FilerStore).UpdateEntry", "filer.FilerStore).FindEntry", "filer.FilerStore).DeleteEntry")
+		nCh, nEn := 0, 0
+		for _, fn := range P.SrcFuncs("weed/filer") {
+			if fn.Signature.Recv() == nil || eng.TypeName(fn.Signature.Recv().Type()) != "FilerStoreWrapper" {
+				continue
+			}
+			sel := eng.Find(fn, eng.PlainCallTo("filer.FilerStoreWrapper).getActualStore"))
+			if len(sel) == 0 {
+				continue
+			}
+			isCh, isEn := len(eng.Find(fn, childOps)) > 0, len(eng.Find(fn, entryOps)) > 0
+			if !isCh && !isEn {
+				continue
+			}
+			c.Touch(fn)
+			for i, in := range sel {
+				arg := eng.Unwrap(eng.Arg(in.(ssa.CallInstruction), 0))
+				slash := false
+				if b, ok := arg.(*ssa.BinOp); ok && b.Op == token.ADD {
+					if k, isK := eng.ConstString(eng.Unwrap(b.Y)); isK && k == "/" {
+						slash = true
+					}
+				}
+				if isCh {
+					nCh++
+					c.Ob("SIB-store-choice", fmt.Sprintf("%s children-op selects by dir+\"/\"#%d", eng.FuncName(fn), i), slash, in.Pos(),
+						"an operation on the children of a directory goes to the store chosen for the directory path followed by \"/\" (where the children were written)")
+				} else {
+					nEn++
+					c.Ob("SIB-store-choice", fmt.Sprintf("%s entry-op selects by the entry path#%d", eng.FuncName(fn), i), !slash, in.Pos(),
+						"an operation on one entry goes to the store chosen for the entry's own path")
+				}
+			}
+		}
+		if nCh < 4 || nEn < 5 {
+			c.Undecided("SIB-store-choice", "discovery", token.NoPos, fmt.Sprintf("found %d children operations and %d entry operations (expected >= 4 and >= 5)", nCh, nEn))
+		}
+	}
+
 	// (1) CreateEntry
 	if fn := c.NeedFunc("weed/filer", "(*Filer).CreateEntry"); fn != nil {
 		ins := eng.Find(fn, eng.PlainCallTo("filer.VirtualFilerStore).InsertEntry", "filer.FilerStore).InsertEntry"))
@@ -162,6 +207,16 @@ func runC18(c *eng.Ctx) {
 			c.Guard("ORDER-rename", "delete-after-create", fn, eng.Entry(fn), del, eng.PassEdges(fn, eng.ErrNil(eng.ErrOf(create[0]))), "the old entry is deleted only after the new entry was created")
 			cut := eng.MergeEdges(eng.PassEdges(fn, eng.ErrNil(eng.ErrOf(cb[0]))), eng.FailEdges(fn, eng.Cmp(func(v ssa.Value) bool { return eng.IsParam(v, "moveFolderSubEntries") }, eng.IsNilConst, token.NEQ)))
 			c.Guard("ORDER-rename", "delete-after-children", fn, eng.Entry(fn), del, cut, "the old entry is deleted only after its children were moved")
+			// the old entry is deleted only when it is a different entry from the one just created: the paths compared are
+			// the normalised ones (FullPath.Child), the very values used for the create and for the delete
+			oldArg := eng.Arg(del[0].(*ssa.Call), 1)
+			isChild := func(v ssa.Value) bool {
+				call, ok := eng.Unwrap(v).(*ssa.Call)
+				return ok && eng.CalleeIs(call, "util.FullPath).Child")
+			}
+			differ := eng.Cmp(func(v ssa.Value) bool { return v == oldArg && isChild(v) }, func(v ssa.Value) bool { return v != oldArg && isChild(v) }, token.NEQ)
+			c.Guard("ORDER-rename", "delete-only-when-paths-differ", fn, eng.Entry(fn), del, eng.PassEdges(fn, differ),
+				"the old entry is deleted only when its normalised path differs from the normalised new path (a rename onto itself must not delete the entry)")
 			call := del[0].(*ssa.Call)
 			rec, ok1 := eng.ConstBool(eng.Arg(call, 2))
 			chunks, ok2 := eng.ConstBool(eng.Arg(call, 4))
